@@ -1,4 +1,6 @@
 import DcVerif.Lemmas.RingLive
+import DcVerif.Lemmas.RingMultiLiveS
+import DcVerif.Lemmas.RingMultiLiveB
 /-!
 # C06 — the ring buffer never deadlocks or loses a wake-up; `write`, `drain` and join terminate
 
@@ -24,8 +26,21 @@ Schedules are infinite sequences `σ : Nat → Tid`; `Fair.run stepX σ x i` is 
   step is enabled infinitely often eventually takes it); `c06_blocking_some_thread_ready` (deadlock freedom in the
   strong sense: some thread can always make progress).
 
-Not covered by the model: the multi-producer sequencer (known findings F7/F8/F11 are exhibited by the correspondence
-run), the fairness of the real OS scheduler and of `std::sync::Mutex`, timing, spurious condvar wake-ups.
+Multi-producer sequencer (`Model/RingMulti.lean`; `section Multi` at the end of this file, ring sizes `2^k`):
+
+* (d) any number of writer threads, both strategies, every schedule (`MReachableWF`): `c06_multi_mutual_exclusion`,
+  `c06_multi_no_lost_wakeup`, `c06_multi_no_deadlock`, `c06_multi_wait_conditions_stable`;
+* (e) **one writer thread**, batches `1 ≤ b < n` (what `has_capacity` needs: `n > (hw − min) + count`), every topology:
+  `c06_multi_single_writer_spin_terminates` (weak fairness), `c06_multi_single_writer_blocking_terminates` (weak fairness +
+  `LockFairM`), `…_write_returns`, `c06_multi_single_writer_zero_events_drains`;
+* (f) any number of writers, conditional: `c06_multi_drain_terminates_when_released` / `…_blocking` — from every reachable
+  state in which all writers are done and nothing is stranded (`cursor = high watermark`) every fair schedule of the
+  draining thread and the handlers terminates. With two or more writers the unconditional statement is false (known findings
+  F7/F8/F11/F13: a stranded sequence stalls later `write` calls in `has_capacity` for ever; `Props/C14.lean` has the
+  witnesses) — (f) isolates the defect in the release protocol.
+
+Not covered by the model: the fairness of the real OS scheduler and of `std::sync::Mutex`, timing, spurious condvar
+wake-ups.
 -/
 namespace C06
 open Ring
@@ -325,5 +340,504 @@ theorem c06_blocking_some_thread_ready (n K : Nat) (h : Nat → Nat) (batches : 
     ∃ t, inTopo (runX (mk n K h true batches) sched).s.K (runX (mk n K h true batches) sched).s.h t ∧
       Blk.ready (runX (mk n K h true batches) sched) t :=
   Blk.exists_ready _ (Blk.jinv_run _ sched (Blk.jinv_init n K h batches hK hh hb)) hnt
+
+/-! ## (d)–(f) the multi-producer sequencer -/
+
+section Multi
+open RingMulti
+
+/-- weak fairness for the multi-producer pipeline: every writer thread `i < P`, the draining thread and every handler `(k,j)`
+of the topology is scheduled infinitely often -/
+def WeaklyFairM (P K : Nat) (h : Nat → Nat) (σ : Nat → MTid) : Prop :=
+  ∀ t, inTopoM P K h t → ∀ i, ∃ m, i ≤ m ∧ σ m = t
+
+/-- strong fairness of lock acquisition (as `LockFair` above): a thread whose `lock` step — or the re-acquisition after
+`cvar.wait`, which additionally needs the notification — is enabled infinitely often along the run eventually takes it
+while it is enabled. Every other step (including the join of the writer threads, which is a stutter until they have ended
+and enabled for ever after) only needs weak fairness. -/
+def LockFairM (P K : Nat) (h : Nat → Nat) (σ : Nat → MTid) (x0 : MSt) : Prop :=
+  ∀ t, inTopoM P K h t →
+    (∀ i, ∃ m, i ≤ m ∧ BlkM.atLock (Fair.run stepM σ x0 m) t = true ∧ enabledM (Fair.run stepM σ x0 m) t = true) →
+    ∀ i, ∃ m, i ≤ m ∧ σ m = t ∧ BlkM.atLock (Fair.run stepM σ x0 m) t = true ∧
+      enabledM (Fair.run stepM σ x0 m) t = true
+
+theorem frun_reachable (n K : Nat) (h : Nat → Nat) (bl : Bool) (batches : List (List Nat))
+    (hK : 0 < K) (hh : ∀ k, k < K → 0 < h k) (hb : ∀ l, l ∈ batches → ∀ b, b ∈ l → 1 ≤ b) (σ : Nat → MTid) (i : Nat) :
+    MReachableWF (Fair.run stepM σ (mkM n K h bl batches) i) :=
+  ⟨n, K, h, bl, batches, (List.range i).map σ, hK, hh, hb, BlkM.frun_eq_runM σ _ i⟩
+
+/-! ### (d) any number of writers, both strategies, every schedule -/
+
+/-- **C06, multi producer: no deadlock** (spin *and* blocking strategy, any number of writer threads, every reachable
+state, every schedule). As long as the run is not over, some thread of the configuration has an enabled step
+(`RingMulti.enabledM`): not a `lock` on a taken mutex, not the re-acquisition of a handler that is parked on the condvar
+without having been notified, not the join of a writer thread that is still running. (This is deadlock freedom; a writer
+spinning for ever in `has_capacity` behind a stranded sequence — F11 — is enabled all the time.) -/
+theorem c06_multi_no_deadlock {x : MSt} (hr : MReachableWF x) (hnt : ¬ terminalM x) :
+    ∃ t, inTopoM x.P x.s.K x.s.h t ∧ enabledM x t = true :=
+  exists_enabled (mreachableWF_ginv hr) hnt
+
+/-- **C06, multi producer: mutual exclusion / ownership of the wait strategy's mutex** (blocking strategy, any number of
+writers, every schedule): a handler is between its `lock` and its `unlock` / `cvar.wait` exactly when the model's mutex is
+owned by it; the mutex is owned by the producer side exactly when a writer thread is inside `signal()`
+(`sNotify/sUnlock`) or the draining thread is (`dNotify/dUnlock/eNotify/eUnlock`); at most one writer is, never a writer
+and the draining thread together, never a handler and one of them together. -/
+theorem c06_multi_mutual_exclusion {x : MSt} (hr : MReachableWF x) (hb : x.s.blocking = true) :
+    (∀ k j, k < x.s.K → j < x.s.h k → (cHold (x.s.cons k j).pc = true ↔ x.s.mtx = some (.cons k j))) ∧
+    (x.s.mtx = some .prod ↔ (dHold x.dr.pc = true ∨ ∃ i, i < x.P ∧ wHold (x.wr i).pc = true)) ∧
+    (∀ i j, i < x.P → j < x.P → wHold (x.wr i).pc = true → wHold (x.wr j).pc = true → i = j) ∧
+    (∀ i, i < x.P → wHold (x.wr i).pc = true → dHold x.dr.pc = false) ∧
+    (∀ k j k' j', k < x.s.K → j < x.s.h k → k' < x.s.K → j' < x.s.h k' →
+        cHold (x.s.cons k j).pc = true → cHold (x.s.cons k' j').pc = true → k = k' ∧ j = j') ∧
+    (∀ k j, k < x.s.K → j < x.s.h k → cHold (x.s.cons k j).pc = true →
+        dHold x.dr.pc = false ∧ ∀ i, i < x.P → wHold (x.wr i).pc = false) := by
+  have hM := (mreachableWF_ginv hr).mtx
+  refine ⟨fun k j hk hj => (hM.blkC hb k j hk hj).1, hM.blkP hb, hM.uniqW, hM.uniqD, ?_, ?_⟩
+  · intro k j k' j' hk hj hk' hj' h1 h2
+    have e1 := ((hM.blkC hb k j hk hj).1).1 h1
+    have e2 := ((hM.blkC hb k' j' hk' hj').1).1 h2
+    rw [e1] at e2
+    injection e2 with e2; injection e2 with a b
+    exact ⟨a, b⟩
+  · intro k j hk hj h1
+    have e1 := ((hM.blkC hb k j hk hj).1).1 h1
+    refine ⟨?_, fun i hi => ?_⟩
+    · apply bool_false_of_ne_true; intro hd
+      have := (hM.blkP hb).2 (Or.inl hd); rw [e1] at this; cases this
+    · apply bool_false_of_ne_true; intro hw
+      have := (hM.blkP hb).2 (Or.inr ⟨i, hi, hw⟩); rw [e1] at this; cases this
+
+/-- **C06, multi producer: no lost wake-up** (any number of writers, every reachable state, every schedule). Whenever a
+handler is parked on the condvar (`bRelock`) and its wait condition already holds or `is_done` is set, then either it has
+been notified (`woken`), or some *other* thread is at a program point between its store and the `notify_all` of its
+`signal()`: the draining thread at `dLock/dNotify` (drain loop) or `eLock/eNotify` (after `is_done := true`), a writer
+thread at `setLw/sLock/sNotify` (after its CAS on the cursor), or a handler at `sLock/sNotify` (after its cursor store). -/
+theorem c06_multi_no_lost_wakeup {x : MSt} (hr : MReachableWF x) (k j : Nat) (hk : k < x.s.K) (hj : j < x.s.h k)
+    (hpark : (x.s.cons k j).pc = .bRelock) (hc : condC x.s k (x.s.cons k j) ∨ x.s.isDone = true) :
+    x.s.woken k j = true ∨ dPend x.dr.pc = true ∨ (∃ i, i < x.P ∧ wPend (x.wr i).pc = true) ∨
+      ∃ k' j', k' < x.s.K ∧ j' < x.s.h k' ∧ (k', j') ≠ (k, j) ∧ cPend (x.s.cons k' j').pc = true :=
+  RingMulti.no_lost_wakeup (mreachableWF_ginv hr) k j hk hj hpark hc
+
+/-- **C06, multi producer: wait conditions are monotone** (every schedule): a handler's wait condition (as long as its own
+cursor is unchanged), the drain condition, and — under every step that leaves the high watermark alone, i.e. every step
+but a successful claim — a writer's capacity condition, once true, stay true; `is_done` is never reset. -/
+theorem c06_multi_wait_conditions_stable {x : MSt} (hr : MReachableWF x) (t : MTid) :
+    (∀ k j, ((stepM x t).s.cons k j).cur = (x.s.cons k j).cur → condC x.s k (x.s.cons k j) →
+        condC (stepM x t).s k ((stepM x t).s.cons k j)) ∧
+    (∀ i, (stepM x t).hw = x.hw → ((stepM x t).wr i).count = (x.wr i).count → condCap x i → condCap (stepM x t) i) ∧
+    ((stepM x t).dr.current = x.dr.current → condDM x → condDM (stepM x t)) ∧
+    (x.s.isDone = true → (stepM x t).s.isDone = true) := by
+  have hG := mreachableWF_ginv hr
+  refine ⟨fun k j hcur hc => RingMulti.condC_stable x t hG.good k j hcur hc, ?_, ?_,
+    fun hd => RingMulti.isDone_stable x t hG.mtx hd⟩
+  · intro i hhw hcnt hc d hd
+    rw [ngate_stepM] at hd
+    have := hc d hd
+    have := gate_mono_stepM x t hG.good d
+    rw [hhw, hcnt, (topo_stepM x t).2.2.1]; omega
+  · intro hcur hc d hd
+    rw [ngate_stepM] at hd
+    have := hc d hd
+    have := gate_mono_stepM x t hG.good d
+    rw [hcur]; omega
+
+/-! ### (e) one writer thread: termination -/
+
+/-- **C06, multi-producer sequencer with one writer thread, spin strategy.** For every ring size `2^k`, every topology
+(`K ≥ 1` stages, every stage at least one handler), every list of batches with `1 ≤ b < 2^k` (what `has_capacity` needs;
+this includes the *empty* list: a pipeline that is drained without ever publishing) and every weakly fair schedule of the
+writer thread, the draining thread and the handlers, the pipeline reaches the state in which the writer has returned from
+all `write` calls, `drain` has returned and every handler thread has terminated.
+
+Proof: `Fair.fair_termination` with the measure `RingMulti.μmain`, readiness `SpinM.ready`, ranks `SpinM.rank`. The
+multi-producer specifics: the writer spins in `next`, re-reading the high watermark and the gating cursors, until the
+slowest last-stage handler has advanced far enough (`readyW`/`condCap`); the handlers can always advance because with one
+writer the cursor equals the published prefix (`Lemmas/RingMultiSerial.lean`: every `publish` releases exactly its own
+range, its CAS on the cursor succeeds at the first attempt); the join is enabled once the writer is done; `drain` reads
+the cursor once and waits for the last stage to reach it. -/
+theorem c06_multi_single_writer_spin_terminates (k K : Nat) (h : Nat → Nat) (bs : List Nat)
+    (hK : 0 < K) (hh : ∀ j, j < K → 0 < h j) (hb : ∀ b, b ∈ bs → 1 ≤ b ∧ b < 2 ^ k)
+    (σ : Nat → MTid) (hfair : WeaklyFairM 1 K h σ) :
+    ∃ t, terminalM (Fair.run stepM σ (mkM (2 ^ k) K h false [bs]) t) :=
+  SpinM.terminates (mkM (2 ^ k) K h false [bs]) ⟨lj_init_single k K h false bs hK hh hb, rfl⟩ σ hfair
+
+/-- **C06, multi-producer sequencer with one writer thread, blocking strategy.** As above for every schedule that is
+weakly fair and strongly fair for lock acquisition: no wake-up is lost (the alert check of a handler is under the mutex;
+the writer signals after every CAS on the cursor, `drain` on every loop iteration and after `is_done := true`), nobody
+waits for ever on the mutex or on the condvar.
+
+Proof: `Fair.fair_termination_sf` with the measure `BlkM.μ = (2·#handlers + 1)·μmain + outstanding wake-ups`. -/
+theorem c06_multi_single_writer_blocking_terminates (k K : Nat) (h : Nat → Nat) (bs : List Nat)
+    (hK : 0 < K) (hh : ∀ j, j < K → 0 < h j) (hb : ∀ b, b ∈ bs → 1 ≤ b ∧ b < 2 ^ k)
+    (σ : Nat → MTid) (hfair : WeaklyFairM 1 K h σ) (hlock : LockFairM 1 K h σ (mkM (2 ^ k) K h true [bs])) :
+    ∃ t, terminalM (Fair.run stepM σ (mkM (2 ^ k) K h true [bs]) t) :=
+  BlkM.terminates (mkM (2 ^ k) K h true [bs]) ⟨lj_init_single k K h true bs hK hh hb, rfl⟩ σ hfair
+    (BlkM.strongFair_of_lockFair _ σ _ hfair hlock)
+
+theorem all_written_of_terminal (k : Nat) (bs : List Nat) (x : MSt) (hr : MReachableWF x) (hn : x.s.n = 2 ^ k)
+    (hP : x.P = 1) (hS : SerAll x) (hW : WBook bs x) (hT0 : TodoDone x) (ht : terminalM x) :
+    (x.wr 0).todo = [] ∧ (x.wr 0).claims.map (·.2.2) = bs ∧ x.hw = bs.sum ∧ x.s.cursor = bs.sum ∧
+    ∀ q, 1 ≤ q → q ≤ bs.sum → (q, 0) ∈ x.written := by
+  have hO := (mreachableWF_safeOwn hr k hn).2
+  have hdone : ∀ a, a < x.P → (x.wr a).pc = .done := ht.1
+  have hpc : (x.wr 0).pc = .done := hdone 0 (by omega)
+  obtain ⟨w1, w2⟩ := hW
+  have hcur : x.s.cursor = x.hw := serial_cursor_eq_hw x hS hdone
+  have h1 : (x.wr 0).todo = [] := hT0 0 hpc
+  have h2 : (x.wr 0).claims.map (·.2.2) = bs := by
+    simpa [hpc, WPc.claiming, h1] using w1
+  have hT : Tiles 1 x.allClaims (x.hw + 1) := (mreachableWF_good hr).1.tiles
+  have h3 : x.hw = bs.sum := by
+    have := tiles_sum hT; rw [w2, h2] at this; omega
+  refine ⟨h1, h2, h3, by rw [hcur, h3], ?_⟩
+  intro q q1 q2
+  rcases hS.1.2.wrote q q1 (by omega) with ⟨a, ha⟩ | ⟨a, ha, hu⟩
+  · obtain ⟨ha', _⟩ := hO.wrote q a ha
+    have : a = 0 := by omega
+    subst this; exact ha
+  · have := hu.1; rw [hdone a ha] at this; cases this
+
+/-- **when the run is over every `write` has returned with its batch published** (one writer, both strategies, every
+schedule): in a terminal state every batch of the input became — in order — one claim of exactly its length, the high
+watermark and the cursor stand at `Σ batches`, and every sequence `1 … Σ batches` was written to its slot by the writer. -/
+theorem c06_multi_all_written_at_exit (k K : Nat) (h : Nat → Nat) (blocking : Bool) (bs : List Nat)
+    (hK : 0 < K) (hh : ∀ j, j < K → 0 < h j) (hb : ∀ b, b ∈ bs → 1 ≤ b)
+    (σ : Nat → MTid) (i : Nat) (ht : terminalM (Fair.run stepM σ (mkM (2 ^ k) K h blocking [bs]) i)) :
+    ((Fair.run stepM σ (mkM (2 ^ k) K h blocking [bs]) i).wr 0).todo = [] ∧
+    ((Fair.run stepM σ (mkM (2 ^ k) K h blocking [bs]) i).wr 0).claims.map (·.2.2) = bs ∧
+    (Fair.run stepM σ (mkM (2 ^ k) K h blocking [bs]) i).hw = bs.sum ∧
+    (Fair.run stepM σ (mkM (2 ^ k) K h blocking [bs]) i).s.cursor = bs.sum ∧
+    ∀ q, 1 ≤ q → q ≤ bs.sum → (q, 0) ∈ (Fair.run stepM σ (mkM (2 ^ k) K h blocking [bs]) i).written := by
+  have hb1 : ∀ l, l ∈ [bs] → ∀ b, b ∈ l → 1 ≤ b := by
+    intro l hl b hbl; simp at hl; subst hl; exact hb b hbl
+  have hP : ∀ j, (Fair.run stepM σ (mkM (2 ^ k) K h blocking [bs]) j).P = 1 := fun j => (BlkM.topo_frun σ _ j).2.2.2
+  have hW : ∀ j, WBook bs (Fair.run stepM σ (mkM (2 ^ k) K h blocking [bs]) j) := by
+    intro j
+    induction j with
+    | zero => exact wbook_init _ K h blocking bs
+    | succ j ih => exact wbook_stepM bs _ _ (hP j) ih
+  have hS : SerAll (Fair.run stepM σ (mkM (2 ^ k) K h blocking [bs]) i) := by
+    rw [BlkM.frun_eq_runM σ _ i]
+    exact serAll_run _ _ (serAll_init k K h blocking [bs] hK hh hb1) (serialSched_of_single _ rfl _)
+  exact all_written_of_terminal k bs _ (frun_reachable _ K h blocking [bs] hK hh hb1 σ i) (BlkM.topo_frun σ _ i).2.2.1
+    (hP i) hS (hW i) (todoDone_frun σ _ (by intro a ha; simp [mkM] at ha) i) ht
+
+/-- **C06, one writer, spin strategy: every `write` returns.** Under every weakly fair schedule a moment is reached at
+which all threads have finished *and* every batch has been claimed with its exact length, written and published. -/
+theorem c06_multi_single_writer_write_returns (k K : Nat) (h : Nat → Nat) (bs : List Nat)
+    (hK : 0 < K) (hh : ∀ j, j < K → 0 < h j) (hb : ∀ b, b ∈ bs → 1 ≤ b ∧ b < 2 ^ k)
+    (σ : Nat → MTid) (hfair : WeaklyFairM 1 K h σ) :
+    ∃ t, terminalM (Fair.run stepM σ (mkM (2 ^ k) K h false [bs]) t) ∧
+      ((Fair.run stepM σ (mkM (2 ^ k) K h false [bs]) t).wr 0).claims.map (·.2.2) = bs ∧
+      (Fair.run stepM σ (mkM (2 ^ k) K h false [bs]) t).s.cursor = bs.sum ∧
+      ∀ q, 1 ≤ q → q ≤ bs.sum → (q, 0) ∈ (Fair.run stepM σ (mkM (2 ^ k) K h false [bs]) t).written := by
+  obtain ⟨t, ht⟩ := c06_multi_single_writer_spin_terminates k K h bs hK hh hb σ hfair
+  obtain ⟨_, h2, _, h4, h5⟩ := c06_multi_all_written_at_exit k K h false bs hK hh (fun b hbm => (hb b hbm).1) σ t ht
+  exact ⟨t, ht, h2, h4, h5⟩
+
+/-- `write` returns under the blocking strategy as well -/
+theorem c06_multi_single_writer_blocking_write_returns (k K : Nat) (h : Nat → Nat) (bs : List Nat)
+    (hK : 0 < K) (hh : ∀ j, j < K → 0 < h j) (hb : ∀ b, b ∈ bs → 1 ≤ b ∧ b < 2 ^ k)
+    (σ : Nat → MTid) (hfair : WeaklyFairM 1 K h σ) (hlock : LockFairM 1 K h σ (mkM (2 ^ k) K h true [bs])) :
+    ∃ t, terminalM (Fair.run stepM σ (mkM (2 ^ k) K h true [bs]) t) ∧
+      ((Fair.run stepM σ (mkM (2 ^ k) K h true [bs]) t).wr 0).claims.map (·.2.2) = bs ∧
+      (Fair.run stepM σ (mkM (2 ^ k) K h true [bs]) t).s.cursor = bs.sum ∧
+      ∀ q, 1 ≤ q → q ≤ bs.sum → (q, 0) ∈ (Fair.run stepM σ (mkM (2 ^ k) K h true [bs]) t).written := by
+  obtain ⟨t, ht⟩ := c06_multi_single_writer_blocking_terminates k K h bs hK hh hb σ hfair hlock
+  obtain ⟨_, h2, _, h4, h5⟩ := c06_multi_all_written_at_exit k K h true bs hK hh (fun b hbm => (hb b hbm).1) σ t ht
+  exact ⟨t, ht, h2, h4, h5⟩
+
+/-- a run over: nothing was published, so no handler was ever invoked and nothing was written -/
+theorem zero_events_facts (k K : Nat) (h : Nat → Nat) (bl : Bool) (hK : 0 < K) (hh : ∀ j, j < K → 0 < h j)
+    (σ : Nat → MTid) (t : Nat) (ht : terminalM (Fair.run stepM σ (mkM (2 ^ k) K h bl [[]]) t)) :
+    (Fair.run stepM σ (mkM (2 ^ k) K h bl [[]]) t).s.cursor = 0 ∧
+    (Fair.run stepM σ (mkM (2 ^ k) K h bl [[]]) t).written = [] ∧
+    ∀ a j, a < K → j < h a → ((Fair.run stepM σ (mkM (2 ^ k) K h bl [[]]) t).s.cons a j).log = [] := by
+  obtain ⟨_, h2, _, h4, _⟩ := c06_multi_all_written_at_exit k K h bl [] hK hh (by simp) σ t ht
+  have hr : MReachableWF (Fair.run stepM σ (mkM (2 ^ k) K h bl [[]]) t) :=
+    frun_reachable _ K h bl [[]] hK hh (by simp) σ t
+  have hn := (BlkM.topo_frun σ (mkM (2 ^ k) K h bl [[]]) t).2.2.1
+  have hO := (mreachableWF_safeOwn hr k hn).2
+  have hP := (BlkM.topo_frun σ (mkM (2 ^ k) K h bl [[]]) t).2.2.2
+  have hcl : ((Fair.run stepM σ (mkM (2 ^ k) K h bl [[]]) t).wr 0).claims = [] := by simpa using h2
+  have hcur : (Fair.run stepM σ (mkM (2 ^ k) K h bl [[]]) t).s.cursor = 0 := by simpa using h4
+  refine ⟨hcur, ?_, ?_⟩
+  · apply List.eq_nil_iff_forall_not_mem.2
+    rintro ⟨q, a⟩ hq
+    obtain ⟨ha, c, hc, _⟩ := hO.wrote q a hq
+    have : a = 0 := by rw [hP] at ha; exact Nat.lt_one_iff.1 ha
+    subst this; rw [hcl] at hc; cases hc
+  · intro a j ha hj
+    obtain ⟨eK, eh, _⟩ := BlkM.topo_frun σ (mkM (2 ^ k) K h bl [[]]) t
+    have eK : (Fair.run stepM σ (mkM (2 ^ k) K h bl [[]]) t).s.K = K := eK
+    have eh : (Fair.run stepM σ (mkM (2 ^ k) K h bl [[]]) t).s.h = h := eh
+    have ha' : a < (Fair.run stepM σ (mkM (2 ^ k) K h bl [[]]) t).s.K := by rw [eK]; exact ha
+    have hj' : j < (Fair.run stepM σ (mkM (2 ^ k) K h bl [[]]) t).s.h a := by rw [eh]; exact hj
+    have hI := (mreachableWF_good hr).2.1
+    have hci := hI.2 a j ha' hj'
+    have hpc := ht.2.2 a j ha' hj'
+    have hlog := hci.logO (by simp [hpc]) (by simp [hpc])
+    have hup := chain_up _ hI a j ha' hj'
+    rw [hcur] at hup
+    have : ((Fair.run stepM σ (mkM (2 ^ k) K h bl [[]]) t).s.cons a j).cur = 0 := by omega
+    rw [hlog, this]; rfl
+
+/-- **C06, one writer, a pipeline drained without ever publishing** (both strategies). With no batch at all, every fair
+schedule reaches the terminal state (join, `drain` and the handler threads return); the cursor is still 0, nothing was
+written and no handler was ever invoked. -/
+theorem c06_multi_single_writer_zero_events_drains (k K : Nat) (h : Nat → Nat)
+    (hK : 0 < K) (hh : ∀ j, j < K → 0 < h j) (σ : Nat → MTid) (hfair : WeaklyFairM 1 K h σ) :
+    (∃ t, terminalM (Fair.run stepM σ (mkM (2 ^ k) K h false [[]]) t) ∧
+      (Fair.run stepM σ (mkM (2 ^ k) K h false [[]]) t).s.cursor = 0 ∧
+      (Fair.run stepM σ (mkM (2 ^ k) K h false [[]]) t).written = [] ∧
+      ∀ a j, a < K → j < h a → ((Fair.run stepM σ (mkM (2 ^ k) K h false [[]]) t).s.cons a j).log = []) ∧
+    (LockFairM 1 K h σ (mkM (2 ^ k) K h true [[]]) →
+      ∃ t, terminalM (Fair.run stepM σ (mkM (2 ^ k) K h true [[]]) t) ∧
+      (Fair.run stepM σ (mkM (2 ^ k) K h true [[]]) t).s.cursor = 0 ∧
+      (Fair.run stepM σ (mkM (2 ^ k) K h true [[]]) t).written = [] ∧
+      ∀ a j, a < K → j < h a → ((Fair.run stepM σ (mkM (2 ^ k) K h true [[]]) t).s.cons a j).log = []) := by
+  constructor
+  · obtain ⟨t, ht⟩ := c06_multi_single_writer_spin_terminates k K h [] hK hh (by simp) σ hfair
+    exact ⟨t, ht, zero_events_facts k K h false hK hh σ t ht⟩
+  · intro hlock
+    obtain ⟨t, ht⟩ := c06_multi_single_writer_blocking_terminates k K h [] hK hh (by simp) σ hfair hlock
+    exact ⟨t, ht, zero_events_facts k K h true hK hh σ t ht⟩
+
+/-! ### (f) any number of writers: `drain` and the handlers terminate once everything claimed has been released -/
+
+theorem lj_of_released {x : MSt} (hr : MReachableWF x) (hdone : writersDone x = true) (hrel : x.s.cursor = x.hw) : LJ x :=
+  ⟨mreachableWF_ginv hr, Or.inr ⟨hdone, hrel⟩⟩
+
+/-- **C06, multi producer, conditional form** (spin strategy, any number of writer threads, any ring size). From every
+reachable state in which all writer threads have ended and nothing is stranded — the cursor has reached the high
+watermark — every weakly fair schedule reaches the terminal state: the join returns, `drain` returns, every handler
+thread exits. The hypothesis `cursor = hw` is exactly what the release protocol fails to establish with two or more
+writers (F7, F13); with it the rest of the pipeline is live. -/
+theorem c06_multi_drain_terminates_when_released {x : MSt} (hr : MReachableWF x) (hspin : x.s.blocking = false)
+    (hdone : writersDone x = true) (hrel : x.s.cursor = x.hw)
+    (σ : Nat → MTid) (hfair : WeaklyFairM x.P x.s.K x.s.h σ) :
+    ∃ t, terminalM (Fair.run stepM σ x t) :=
+  SpinM.terminates x ⟨lj_of_released hr hdone hrel, hspin⟩ σ hfair
+
+/-- the same for the blocking strategy, under weak fairness + strong fairness of lock acquisition -/
+theorem c06_multi_drain_terminates_when_released_blocking {x : MSt} (hr : MReachableWF x) (hblk : x.s.blocking = true)
+    (hdone : writersDone x = true) (hrel : x.s.cursor = x.hw)
+    (σ : Nat → MTid) (hfair : WeaklyFairM x.P x.s.K x.s.h σ) (hlock : LockFairM x.P x.s.K x.s.h σ x) :
+    ∃ t, terminalM (Fair.run stepM σ x t) :=
+  BlkM.terminates x ⟨lj_of_released hr hdone hrel, hblk⟩ σ hfair (BlkM.strongFair_of_lockFair _ σ _ hfair hlock)
+
+/-- **C06, multi producer, blocking strategy, one writer: no deadlock in the strong sense** (every schedule): as long as
+the run is not over some thread of the configuration is *ready* — its wait is over (or it never waits) and it reaches its
+next progress event after a bounded number of own steps, or it is about to deliver the wake-up a parked handler waits for -/
+theorem c06_multi_single_writer_some_thread_ready (k K : Nat) (h : Nat → Nat) (bs : List Nat)
+    (hK : 0 < K) (hh : ∀ j, j < K → 0 < h j) (hb : ∀ b, b ∈ bs → 1 ≤ b ∧ b < 2 ^ k) (σ : Nat → MTid) (i : Nat)
+    (hnt : ¬ terminalM (Fair.run stepM σ (mkM (2 ^ k) K h true [bs]) i)) :
+    ∃ t, inTopoM (Fair.run stepM σ (mkM (2 ^ k) K h true [bs]) i).P (Fair.run stepM σ (mkM (2 ^ k) K h true [bs]) i).s.K
+        (Fair.run stepM σ (mkM (2 ^ k) K h true [bs]) i).s.h t ∧
+      BlkM.ready (Fair.run stepM σ (mkM (2 ^ k) K h true [bs]) i) t := by
+  have : ∀ j, BlkM.LB (Fair.run stepM σ (mkM (2 ^ k) K h true [bs]) j) := by
+    intro j
+    induction j with
+    | zero => exact ⟨lj_init_single k K h true bs hK hh hb, rfl⟩
+    | succ j ih => exact BlkM.lb_stepM _ _ ih
+  exact BlkM.exists_ready _ (this i) hnt
+
+/-! ### non-vacuity -/
+
+/-- a concrete weakly fair schedule: the writer, the draining thread and the single handler take turns -/
+def altM : Nat → MTid := fun i => if i % 3 = 0 then .writer 0 else if i % 3 = 1 then .drainer else .cons 0 0
+
+theorem altM_fair : WeaklyFairM 1 1 (fun _ => 1) altM := by
+  intro t ht i
+  cases t with
+  | writer a =>
+    have ha : a = 0 := Nat.lt_one_iff.1 ht
+    subst ha
+    exact ⟨3 * i, by omega, by simp [altM]⟩
+  | drainer =>
+    refine ⟨3 * i + 1, by omega, ?_⟩
+    have h1 : (3 * i + 1) % 3 = 1 := by omega
+    simp [altM, h1]
+  | cons a j =>
+    obtain ⟨ha, hj⟩ := ht
+    change j < 1 at hj
+    have ha0 : a = 0 := by omega
+    have hj0 : j = 0 := by omega
+    subst ha0; subst hj0
+    refine ⟨3 * i + 2, by omega, ?_⟩
+    have h1 : (3 * i + 2) % 3 = 2 := by omega
+    simp [altM, h1]
+
+example : ∃ t, terminalM (Fair.run stepM altM (mkM (2 ^ 2) 1 (fun _ => 1) false [[2, 3, 1]]) t) :=
+  c06_multi_single_writer_spin_terminates 2 1 (fun _ => 1) [2, 3, 1] (by omega) (fun _ _ => Nat.one_pos)
+    (by intro b hb; simp at hb; omega) altM altM_fair
+
+example : ∃ t, terminalM (Fair.run stepM altM (mkM (2 ^ 2) 1 (fun _ => 1) false [[2, 3]]) t) ∧
+    (Fair.run stepM altM (mkM (2 ^ 2) 1 (fun _ => 1) false [[2, 3]]) t).s.cursor = 5 := by
+  obtain ⟨t, h1, _, h3, _⟩ := c06_multi_single_writer_write_returns 2 1 (fun _ => 1) [2, 3] (by omega)
+    (fun _ _ => Nat.one_pos) (by intro b hb; simp at hb; omega) altM altM_fair
+  exact ⟨t, h1, h3⟩
+
+example : ∃ t, terminalM (Fair.run stepM altM (mkM (2 ^ 3) 1 (fun _ => 1) false [[]]) t) := by
+  obtain ⟨⟨t, h, _⟩, _⟩ := c06_multi_single_writer_zero_events_drains 3 1 (fun _ => 1) (by omega)
+    (fun _ _ => Nat.one_pos) altM altM_fair
+  exact ⟨t, h⟩
+
+theorem terminal_of_facts (x : MSt) (hP : x.P = 1) (hK : x.s.K = 1) (hh : x.s.h = fun _ => 1)
+    (h1 : (x.wr 0).pc = .done) (h2 : x.dr.pc = .done) (h3 : (x.s.cons 0 0).pc = .done) : terminalM x := by
+  refine ⟨fun i hi => ?_, h2, fun a j ha hj => ?_⟩
+  · have : i = 0 := by omega
+    subst this; exact h1
+  · rw [hK] at ha; rw [hh] at hj
+    have ha0 : a = 0 := by omega
+    have hj0 : j = 0 := by simp at hj; omega
+    subst ha0; subst hj0; exact h3
+
+set_option maxRecDepth 20000 in
+/-- non-vacuity of the fairness hypotheses of the blocking theorem: `altM` is weakly fair and lock-fair for the blocking
+pipeline `n = 2`, one handler, batches `[1, 1]` — under it the run is over after 213 steps (checked by evaluation) -/
+theorem altM_lockfair : LockFairM 1 1 (fun _ => 1) altM (mkM (2 ^ 1) 1 (fun _ => 1) true [[1, 1]]) := by
+  have hT : terminalM (Fair.run stepM altM (mkM (2 ^ 1) 1 (fun _ => 1) true [[1, 1]]) 213) := by
+    obtain ⟨eK, eh, _, eP⟩ := BlkM.topo_frun altM (mkM (2 ^ 1) 1 (fun _ => 1) true [[1, 1]]) 213
+    exact terminal_of_facts _ eP eK eh (by decide +kernel) (by decide +kernel) (by decide +kernel)
+  exact BlkM.lockFair_of_terminates altM _ 213 hT
+
+example : ∃ t, terminalM (Fair.run stepM altM (mkM (2 ^ 1) 1 (fun _ => 1) true [[1, 1]]) t) :=
+  c06_multi_single_writer_blocking_terminates 1 1 (fun _ => 1) [1, 1] (by omega) (fun _ _ => Nat.one_pos)
+    (by intro b hb; simp at hb; omega) altM altM_fair altM_lockfair
+
+/-- a blocking pipeline in the middle of a run: the handler has parked itself on the condvar (7 steps), then the writer has
+claimed, written and released sequence 1 — its CAS on the cursor has succeeded — and stands before the low-watermark
+store that precedes its `signal()` (18 steps) -/
+def parkedStateM : MSt :=
+  runM (mkM 4 1 (fun _ => 1) true [[1]]) (List.replicate 7 (MTid.cons 0 0) ++ List.replicate 18 (MTid.writer 0))
+
+theorem parkedStateM_reachable : MReachableWF parkedStateM :=
+  ⟨4, 1, fun _ => 1, true, [[1]], _, by omega, fun _ _ => Nat.one_pos, by intro l hl b hb; simp at hl; subst hl; simp at hb; omega,
+   rfl⟩
+
+theorem parkedStateM_facts :
+    (parkedStateM.s.cons 0 0).pc = .bRelock ∧ parkedStateM.s.woken 0 0 = false ∧ parkedStateM.s.cursor = 1 ∧
+    (parkedStateM.s.cons 0 0).cur = 0 ∧ (parkedStateM.wr 0).pc = .setLw ∧ parkedStateM.s.mtx = none ∧
+    parkedStateM.dr.pc = .waitJoin := by
+  decide +kernel
+
+example : ∃ t, inTopoM parkedStateM.P parkedStateM.s.K parkedStateM.s.h t ∧ enabledM parkedStateM t = true :=
+  c06_multi_no_deadlock parkedStateM_reachable (by intro h; have := h.2.1; simp [parkedStateM_facts.2.2.2.2.2.2] at this)
+
+/-- in `parkedStateM` the handler is parked, not notified, its condition holds — and indeed the writer stands between its
+CAS on the cursor and its `signal()` -/
+example : ∃ i, i < parkedStateM.P ∧ wPend (parkedStateM.wr i).pc = true := by
+  have hf := parkedStateM_facts
+  have hcond : condC parkedStateM.s 0 (parkedStateM.s.cons 0 0) := by
+    intro d _; simp only [dep, if_true]; rw [hf.2.2.1, hf.2.2.2.1]; omega
+  rcases c06_multi_no_lost_wakeup parkedStateM_reachable 0 0 (by decide +kernel) (by decide +kernel) hf.1 (Or.inl hcond)
+    with h | h | h | h
+  · rw [hf.2.1] at h; cases h
+  · rw [hf.2.2.2.2.2.2] at h; cases h
+  · exact h
+  · obtain ⟨k', j', hk', hj', hne, _⟩ := h
+    have hK : parkedStateM.s.K = 1 := by decide +kernel
+    have hh : parkedStateM.s.h k' = 1 := by
+      have : parkedStateM.s.h = fun _ => 1 := (runM_topo (mkM 4 1 (fun _ => 1) true [[1]]) _).2.1
+      rw [this]
+    exfalso; apply hne
+    have : k' = 0 := by omega
+    have : j' = 0 := by omega
+    subst_vars; rfl
+
+/-- two writers that claim concurrently and publish one after the other in claim order: both are done, the cursor stands at
+the high watermark 2 — the hypotheses of the conditional theorem hold, and under every fair schedule of the four threads
+the draining thread and the handler terminate -/
+def releasedState : MSt :=
+  runM (mkM 4 1 (fun _ => 1) false [[1], [1]])
+    (List.replicate 6 (MTid.writer 0) ++ List.replicate 6 (MTid.writer 1) ++ List.replicate 20 (MTid.writer 0) ++
+     List.replicate 20 (MTid.writer 1))
+
+theorem releasedState_topo : releasedState.P = 2 ∧ releasedState.s.K = 1 ∧ releasedState.s.h = fun _ => 1 := by
+  unfold releasedState
+  generalize (List.replicate 6 (MTid.writer 0) ++ List.replicate 6 (MTid.writer 1) ++ List.replicate 20 (MTid.writer 0) ++
+     List.replicate 20 (MTid.writer 1)) = sch
+  obtain ⟨e1, e2, _, e4, _⟩ := runM_topo (mkM 4 1 (fun _ => 1) false [[1], [1]]) sch
+  exact ⟨e4, e1, e2⟩
+
+example (σ : Nat → MTid) (hfair : WeaklyFairM 2 1 (fun _ => 1) σ) : ∃ t, terminalM (Fair.run stepM σ releasedState t) := by
+  have hr : MReachableWF releasedState :=
+    ⟨4, 1, fun _ => 1, false, [[1], [1]], _, by omega, fun _ _ => Nat.one_pos,
+     by intro l hl b hb; simp at hl; rcases hl with rfl | rfl <;> simp at hb <;> omega, rfl⟩
+  obtain ⟨hP, hK, hh⟩ := releasedState_topo
+  apply c06_multi_drain_terminates_when_released hr (by decide +kernel) (by decide +kernel) (by decide +kernel) σ
+  rw [hP, hK, hh]; exact hfair
+
+/-- the same with the blocking strategy, under a concrete weakly fair and lock-fair schedule (the four threads take turns;
+the run is over after 116 steps, checked by evaluation) -/
+def releasedStateB : MSt :=
+  runM (mkM 4 1 (fun _ => 1) true [[1], [1]])
+    (List.replicate 6 (MTid.writer 0) ++ List.replicate 6 (MTid.writer 1) ++ List.replicate 24 (MTid.writer 0) ++
+     List.replicate 24 (MTid.writer 1))
+
+def alt4 : Nat → MTid :=
+  fun i => if i % 4 = 0 then .writer 0 else if i % 4 = 1 then .writer 1 else if i % 4 = 2 then .drainer else .cons 0 0
+
+theorem alt4_fair : WeaklyFairM 2 1 (fun _ => 1) alt4 := by
+  intro t ht i
+  cases t with
+  | writer a =>
+    have ha : a < 2 := ht
+    rcases Nat.lt_or_ge a 1 with h0 | h1
+    · have : a = 0 := by omega
+      subst this
+      exact ⟨4 * i, by omega, by simp [alt4]⟩
+    · have : a = 1 := by omega
+      subst this
+      refine ⟨4 * i + 1, by omega, ?_⟩
+      have h1 : (4 * i + 1) % 4 = 1 := by omega
+      simp [alt4, h1]
+  | drainer =>
+    refine ⟨4 * i + 2, by omega, ?_⟩
+    have h1 : (4 * i + 2) % 4 = 2 := by omega
+    simp [alt4, h1]
+  | cons a j =>
+    obtain ⟨ha, hj⟩ := ht
+    change j < 1 at hj
+    have ha0 : a = 0 := by omega
+    have hj0 : j = 0 := by omega
+    subst ha0; subst hj0
+    refine ⟨4 * i + 3, by omega, ?_⟩
+    have h1 : (4 * i + 3) % 4 = 3 := by omega
+    simp [alt4, h1]
+
+theorem releasedStateB_topo : releasedStateB.P = 2 ∧ releasedStateB.s.K = 1 ∧ releasedStateB.s.h = fun _ => 1 := by
+  unfold releasedStateB
+  generalize (List.replicate 6 (MTid.writer 0) ++ List.replicate 6 (MTid.writer 1) ++ List.replicate 24 (MTid.writer 0) ++
+     List.replicate 24 (MTid.writer 1)) = sch
+  obtain ⟨e1, e2, _, e4, _⟩ := runM_topo (mkM 4 1 (fun _ => 1) true [[1], [1]]) sch
+  exact ⟨e4, e1, e2⟩
+
+set_option maxRecDepth 20000 in
+example : ∃ t, terminalM (Fair.run stepM alt4 releasedStateB t) := by
+  have hr : MReachableWF releasedStateB :=
+    ⟨4, 1, fun _ => 1, true, [[1], [1]], _, by omega, fun _ _ => Nat.one_pos,
+     by intro l hl b hb; simp at hl; rcases hl with rfl | rfl <;> simp at hb <;> omega, rfl⟩
+  obtain ⟨hP, hK, hh⟩ := releasedStateB_topo
+  have hT : terminalM (Fair.run stepM alt4 releasedStateB 116) := by
+    obtain ⟨eK, eh, _, eP⟩ := BlkM.topo_frun alt4 releasedStateB 116
+    refine ⟨fun i hi => ?_, by decide +kernel, fun a j ha hj => ?_⟩
+    · rw [eP, hP] at hi
+      rcases Nat.lt_or_ge i 1 with h0 | h1
+      · have : i = 0 := by omega
+        subst this; decide +kernel
+      · have : i = 1 := by omega
+        subst this; decide +kernel
+    · rw [eK, hK] at ha; rw [eh, hh] at hj
+      have ha0 : a = 0 := by omega
+      have hj0 : j = 0 := by simp at hj; omega
+      subst ha0; subst hj0; decide +kernel
+  have hlf := BlkM.lockFair_of_terminates alt4 releasedStateB 116 hT
+  apply c06_multi_drain_terminates_when_released_blocking hr (by decide +kernel) (by decide +kernel) (by decide +kernel) alt4
+  · rw [hP, hK, hh]; exact alt4_fair
+  · exact hlf
+
+end Multi
 
 end C06
